@@ -21,10 +21,14 @@ from . import c01
 
 LITERALS = ['char *s = "a\\"b\\\\c\\n"; char c = \'\\\'\'; char d = \'"\'; int e[] = {}; char *w = L"x\\ty";',
             'char *u = "héllo 世界"; char *v = u8"ü"; int f(void) { return \'\\\\\'; }',
-            'struct S; int g(); void h(void) { ; {} } enum E { A }; int (*fp)(void) = 0;']
+            'struct S; int g(); void h(void) { ; {} } enum E { A }; int (*fp)(void) = 0;',
+            '_Alignas(8) int a8; _Alignas(double) char ad; struct A { _Alignas(16) int m; }; void p(void) { _Pragma("omp x") a8 = 1; }']
 
 
 def node_ids(ast):
+    """Identities of every node object reachable through ANY slot (not only children(): some plain-value
+    fields hold nodes, e.g. Decl.align, Pragma.string)."""
+    from pycparser import c_ast
     ids = set()
     stack = [ast]
     while stack:
@@ -32,7 +36,13 @@ def node_ids(ast):
         if id(n) in ids:
             continue
         ids.add(id(n))
-        stack.extend(c for _, c in n.children())
+        for slot in type(n).__slots__:
+            if slot in ("coord", "__weakref__"):
+                continue
+            v = getattr(n, slot, None)
+            for x in (v if isinstance(v, (list, tuple)) else [v]):
+                if isinstance(x, c_ast.Node):
+                    stack.append(x)
     return ids
 
 
